@@ -11,7 +11,10 @@
 (*                        EXPUNGE / UID EXPUNGE / CLOSE is in flight       *)
 (*  C14_MoveExactlyOne    when MOVE is answered OK every moved message is  *)
 (*                        gone from the source and present in the          *)
-(*                        destination under the UID COPYUID names          *)
+(*                        destination under the UID COPYUID names (checked *)
+(*                        when no other command overlapped); and when only *)
+(*                        MOVEs and EXPUNGEs ran, no message exists twice  *)
+(*                        at the end (two sessions moving the same message)*)
 (*  C14_AppendAllOrNothing  a multi-message APPEND that did not complete   *)
 (*                        with OK left none of its messages                *)
 (*  C14_FailedUnchanged   a command answered NO or BAD left the mailboxes  *)
@@ -91,7 +94,7 @@ Tagged(ev) ==
   LET s == ev.s
       c == cmd[s]
       lastMove == c # <<>> /\ c[1] = "move" /\ \A t \in Sess \ {s} : cmd[t] = <<>> \/ cmd[t][1] # "move"
-  IN IF c # <<>> /\ c[1] = "move" /\ ev.cond = "OK"
+  IN IF c # <<>> /\ c[1] = "move" /\ ev.cond = "OK" /\ clean[s]
         /\ \E m \in moved[s] : (m[1] # "" /\ Has(m[1], m[2])) \/ (m[3] # "" /\ ~Has(m[3], m[4]))
      THEN Fail("C14_MoveExactlyOne")
      ELSE IF lastMove /\ limbo # {} THEN Fail("C14_MoveExactlyOne")   \* finished, message still nowhere
@@ -110,6 +113,9 @@ Gone(ev) == /\ cmd' = [cmd EXCEPT ![ev.s] = <<>>]
 End(ev) ==
   IF \E i \in DOMAIN ev.appends : ~ev.appends[i].ok /\ ToSet(ev.appends[i].cids) \cap Cids(rows) # {}
   THEN Fail("C14_AppendAllOrNothing")
+  \* nothing but MOVEs (and EXPUNGEs) ran: no message may exist twice afterwards
+  ELSE IF ev.nocopy /\ \E x, y \in rows : x[3] = y[3] /\ x # y
+  THEN Fail("C14_MoveExactlyOne")
   ELSE UNCHANGED <<rows, hasrows, cmd, atstart, clean, moved, limbo, used, bad>>
 
 Next == /\ l <= Len(Traces[tid]) /\ bad = ""
